@@ -58,7 +58,7 @@ def scalars(bad_ok=True):
     good = [
         st.builds(lambda s: {"k": "text", "s": s}, st.one_of(gen.safe_text(0, 3), st.sampled_from(["", "ab", "<b>"]))),
         st.builds(lambda s: {"k": "text", "s": s}, gen.safe_text(0, 3)),
-        st.builds(lambda v: {"k": "num", "v": v}, st.one_of(st.integers(-5, 50), st.sampled_from([0, 1, 2.5, -0.0, 1e21, 10**20]))),
+        st.builds(lambda v: {"k": "num", "v": v}, st.one_of(st.integers(-5, 50), st.sampled_from([0, 1, 2.5, -0.0, 0.0, 1.0, 2.0, -1.0, 1e21, 10**20, 1e2, 100]))),
         st.just({"k": "none"}),
         st.just({"k": "html", "s": "<i>h</i>"}),
         st.sampled_from(
@@ -120,7 +120,7 @@ def op_strategy():
 
 
 def case_strategy():
-    return st.fixed_dictionaries({"on_tag": st.booleans(), "start": st.lists(args(bad_ok=False), max_size=3), "ops": st.lists(op_strategy(), min_size=1, max_size=10)})
+    return st.fixed_dictionaries({"tag_name": st.sampled_from(["div", "div", "span", "br", "input", "script", "x-el"]), "on_tag": st.booleans(), "start": st.lists(args(bad_ok=False), max_size=3), "ops": st.lists(op_strategy(), min_size=1, max_size=10)})
 
 
 # ---------------------------------------------------------------- model
@@ -183,7 +183,7 @@ def body(case, note):
 
     start = [build_arg(r) for r in case["start"]]
     if case["on_tag"]:
-        tag = h.Tag("div", *start, id="t")
+        tag = h.Tag(case.get("tag_name", "div"), *start, id="t")
         real = tag.children
         check(isinstance(real, h.TagList), "Tag.children is not a TagList")
     else:
@@ -219,7 +219,7 @@ def body(case, note):
                 if tag is not None and any(r["k"] == "bad" and r["t"] == "dict" for r in recs):
                     continue  # a top-level dict is an attribute dict for the Tag constructor
                 if tag is not None:
-                    act = lambda: h.Tag("div", *[o for o in objs], id="t")
+                    act = lambda: h.Tag(case.get("tag_name", "div"), *[o for o in objs], id="t")
                 else:
                     act = lambda: h.TagList(*objs)
                 if expect_invalid:
